@@ -44,17 +44,30 @@ func (fp *footprintT) merge(o *footprintT) {
 	fp.all = fp.all || o.all
 }
 
-// valueIsFresh: was the object denoted by v (pointer, slice, map) allocated by this function?
+// freshScope: when non-nil, only allocations located in these blocks count as fresh
+// (loop-relative freshness: an object made before a loop is an existing object for the loop).
+var freshScope map[*ssa.BasicBlock]bool
+
+func inFreshScope(i ssa.Instruction) bool {
+	return freshScope == nil || freshScope[i.Block()]
+}
+
+// valueIsFresh: was the object denoted by v (pointer, slice, map) allocated by this function
+// (or, under freshScope, by the loop body)?
 func valueIsFresh(v ssa.Value) bool {
 	switch x := v.(type) {
-	case *ssa.Alloc, *ssa.MakeSlice, *ssa.MakeMap:
-		return true
+	case *ssa.Alloc:
+		return inFreshScope(x)
+	case *ssa.MakeSlice:
+		return inFreshScope(x)
+	case *ssa.MakeMap:
+		return inFreshScope(x)
 	case *ssa.Convert:
 		_, ok := x.Type().Underlying().(*types.Slice)
-		return ok
+		return ok && inFreshScope(x)
 	case *ssa.Call:
 		if b, ok := x.Call.Value.(*ssa.Builtin); ok && b.Name() == "append" {
-			return true
+			return inFreshScope(x)
 		}
 	case *ssa.Slice:
 		if _, ok := x.X.Type().Underlying().(*types.Pointer); ok {
@@ -70,7 +83,7 @@ func valueIsFresh(v ssa.Value) bool {
 func addrIsFresh(v ssa.Value) bool {
 	switch x := v.(type) {
 	case *ssa.Alloc:
-		return true
+		return inFreshScope(x)
 	case *ssa.FieldAddr:
 		return addrIsFresh(x.X)
 	case *ssa.IndexAddr:
@@ -618,6 +631,9 @@ func (eng *Engine) footprint(f *ssa.Function, sc *Script) *footprintT {
 		return newFP() // recursion: approximated by a second round below
 	}
 	eng.fpBusy[f] = true
+	saved := freshScope
+	freshScope = nil // callee-relative freshness inside the callee
+	defer func() { freshScope = saved }()
 	fp := newFP()
 	for round := 0; round < 2; round++ {
 		for _, b := range f.Blocks {
